@@ -225,7 +225,13 @@ MC_HARNESS(resize_work) {
     }
   }
   Tasks t;
-  mc::Shared<int> a_done{0}, b_done{0};
+  mc::Shared<int> a_done{0}, b_done{0}, a_in_gen{0};
+  // gate=1 (directed variant, path tb): the generator of the last bulk task is slow - it returns only after
+  // B's whole script has run, and B starts only when that generator has been entered. Generators are user code,
+  // so this is a legal program; it pins the resize inside the submission window without spending deviations.
+  int gate_mode = (int)P("gate", 0); // 2: the slow generator only waits until B has *started* its script
+  bool gate = gate_mode != 0;
+  mc::Shared<int> b_started{0};
   int ntasks = path == "pf" ? k + 1 : k;
   {
     dispenso::ThreadPool pool((size_t)n);
@@ -251,7 +257,14 @@ MC_HARNESS(resize_work) {
       } else if (path == "tb") {
         dispenso::TaskSet ts(pool);
         if (ring_likely(k)) mc::cover("ring_fast_path");
-        ts.scheduleBulk((size_t)k, [&t](size_t i) { return [&t, i] { t.body((int)i); }; });
+        ts.scheduleBulk((size_t)k, [&](size_t i) {
+          if (gate && (int)i == k - 1) {
+            a_in_gen.set(1);
+            if (gate_mode == 2) mc::block_until([&] { return b_started.get() == 1; });
+            else mc::block_until([&] { return b_done.get() == 1; });
+          }
+          return [&t, i] { t.body((int)i); };
+        });
         ts.wait();
         MC_CHECK(all_finished(), "TaskSet::wait() returned with %d of %d tasks finished", t.nfinished.get(), ntasks);
       } else if (path == "cs") {
@@ -279,6 +292,8 @@ MC_HARNESS(resize_work) {
       a_done.set(1);
     });
     mc::spawn([&] { // ---- thread B
+      if (gate) mc::block_until([&] { return a_in_gen.get() == 1 || a_done.get() == 1; });
+      b_started.set(1);
       for (int m : sizes) {
         pool.resize(m);
         MC_CHECK(pool.numThreads() == m, "numThreads() %ld right after resize(%d)", (long)pool.numThreads(), m);
